@@ -195,9 +195,11 @@ class Ref(object):
                         tq = next(iter(c))
                     if tq - have != 0:
                         orders.append((a, tq - have))
-                if act is not None and not (self.equity_at(t) > 0):
+                if act is not None and (not (self.equity_at(t) > 0) or abs(self.equity_at(t)) > 2 ** 50
+                                        or any(abs(q_) > 2 ** 50 for _, q_ in list(act.items()) + orders)):
                     # the sizing rules are stated for positive equity (C10 / C11): once a book has lost more than it had, the
-                    # orders the library generated are taken as given (fills, prices, cash and equity stay judged)
+                    # orders the library generated are taken as given (fills, prices, cash and equity stay judged); likewise
+                    # where equity or quantities exceed 2**50 (floats cannot hit a whole number to within one unit up there)
                     orders = sorted((a, q) for a, q in act.items())
                     self.unjudged_rebalances = getattr(self, 'unjudged_rebalances', 0) + 1
                 elif act is not None:
